@@ -29,7 +29,7 @@ func init() {
 	families["cutenum"] = &family{gen: genCutEnum, run: runCut}
 }
 
-var cutModes = []string{"halfclose", "cancel", "reset"}
+var cutModes = []string{"halfclose", "cancel", "reset", "halfclose-cancel"}
 var getModes = []string{"cancel", "reset", "stall-cancel"}
 
 // fixedScript is the enumerated tier's Modify script: params, election, three
@@ -68,9 +68,9 @@ func prepSteps(g *gen) []Step {
 
 // Enumerated cut space (quick tier). Index -> (target, point, mode, window).
 //
-//	Modify: 6 after-send points (0..5 messages sent) + 7 after-recv points (1..7 responses read) = 13, x 3 modes x 2 windows = 78
+//	Modify: 6 after-send points (0..5 messages sent) + 7 after-recv points (1..7 responses read) = 13, x 4 modes x 2 windows = 104
 //	Get:    9 points (0..8 responses read) x 3 modes x 2 windows = 54
-const cutSpaceModify, cutSpaceGet = 78, 54
+const cutSpaceModify, cutSpaceGet = 104, 54
 const CutSpace = cutSpaceModify + cutSpaceGet
 
 func genCutEnum(seed uint64, prop string) *Scenario {
@@ -84,7 +84,7 @@ func genCutEnum(seed uint64, prop string) *Scenario {
 	sc.Steps = append(sc.Steps, prepSteps(g)...)
 	if idx < cutSpaceModify {
 		w, rest := idx%2, idx/2
-		mode, point := rest%3, rest/3
+		mode, point := rest%4, rest/4
 		sc.Cfg.Window = []int{1, 0}[w]
 		sc.Steps = append(sc.Steps, fixedScript(g, [2]uint64{0, 5})...)
 		c := Step{T: "c-cut", Note: cutModes[mode]}
@@ -163,7 +163,7 @@ func genCut(seed uint64, prop string) *Scenario {
 				nmsg++
 			}
 		}
-		c := Step{T: "c-cut", Note: cutModes[r.IntN(3)]}
+		c := Step{T: "c-cut", Note: cutModes[r.IntN(4)]}
 		if r.IntN(2) == 0 {
 			c.A, c.B = 0, r.IntN(nmsg+1)
 		} else {
@@ -560,6 +560,15 @@ func (e *env) cutModify(script []*Step, cut *Step) {
 	case "halfclose":
 		e.sim.Fault("halfclose")
 		s.mc.CloseSend()
+	case "halfclose-cancel":
+		// the client half-closes, does not drain what the server still owes it, and then goes away
+		e.sim.Fault("halfclose")
+		s.mc.CloseSend()
+		simrt.AwaitQuiescence("halfclose-settle")
+		if s.mc.Stream().QueuedToClient() > 0 && !s.mc.Stream().Finished() {
+			e.probe("cut: cancelled after half-close with the server blocked on flow control")
+		}
+		s.mc.Stream().Cancel()
 	case "cancel":
 		s.mc.Stream().Cancel()
 	default:
